@@ -25,7 +25,7 @@ binding:   (a) spec -> code: every CASE x k concretizations is fed to the real p
            by line text; UnmodifiedLossless, Isolation, InputUntouched; negative control
            SharedTokens = TRUE): the previous document is kept alive and re-dumped / its input
            re-tokenized after the next parse; for every 3rd case (thorough: every case of <= 3 lines, every
-           2nd 4-line and 3rd 5-line case) the same lines
+           3rd 4-line and 4th 5-line case) the same lines
            are parsed as iterator, generator and twice as the same list object (the list must come
            back untouched), the first result is edited through the public API (set / delete / sort /
            append / insert), a different document sharing its lines (the CASE without the last line)
@@ -34,12 +34,12 @@ binding:   (a) spec -> code: every CASE x k concretizations is fed to the real p
            re-dumped after the next document was parsed and a sibling parse was edited; that output
            is one more element of `outs`, judged by TLC.
            Aborted parses are history steps too (ParseFails; negative control LeftoverRunBuffer =
-           TRUE): before every 5th (thorough: 3rd) CASE parse and every 4th recorded document a parse of 1..8 (now
+           TRUE): before every 5th (thorough: 4th) CASE parse and every 4th recorded document a parse of 1..8 (now
            and then 9..257) comment / field / error / continuation lines is aborted -- the input
            generator raises, a bytes line does not decode, or an unterminated non-final line follows
            -- and the valid parse after it must still be exact.
            (d) size dimension (notes/SIZE_STRESS.md): the abstract cases are unchanged; every 4th
-           (thorough: 3rd, 6th of the 5-line cases) CASE gets one more concretization whose segment lengths hit boundary
+           (thorough: 4th, 8th of the 5-line cases) CASE gets one more concretization whose segment lengths hit boundary
            values (names up to 300, whitespace runs up to 4097, values / comments / garbage lines up
            to 8193 and occasionally 64 KiB) -- the expected text is still the CASE's `out` sequence,
            which does not depend on lengths.  The trace leg records size-stressed documents (long
@@ -1636,13 +1636,13 @@ def run(ctx):
         for cases, styles in plan:
             for c in cases:
                 by_len[len(c["ls"])] = by_len.get(len(c["ls"]), 0) + 1
-            # shared-state scenario: every 3rd case (quick); every case of <= 3 lines, every 2nd 4-line and
-            # every 3rd 5-line case (thorough)
+            # shared-state scenario: every 3rd case (quick); every case of <= 3 lines, every 3rd 4-line and
+            # every 4th 5-line case (thorough)
             n_lines = len(cases[0]["ls"]) if cases else 0
-            every = 3 if quick else (3 if n_lines >= 5 else 2 if n_lines == 4 else 1)
-            big_every = 4 if quick else (6 if cases and len(cases[0]["ls"]) >= 5 else 3)
+            every = 3 if quick else (4 if n_lines >= 5 else 3 if n_lines == 4 else 1)
+            big_every = 4 if quick else (8 if cases and len(cases[0]["ls"]) >= 5 else 4)
             n_replayed += replay_cases(ctx, cases, styles, index, every, stats, big_every=big_every, gen=gen,
-                                       fail_every=5 if quick else 3, variant_every=6 if quick else 3)
+                                       fail_every=5 if quick else 4, variant_every=6 if quick else 8)
             if len(ctx.violations) >= ctx.max_violation_files:
                 break
         ctx.extra["cases_by_length"] = {str(k): v for k, v in sorted(by_len.items())}
@@ -1670,6 +1670,8 @@ def run(ctx):
     if "err" in bg_res:
         raise bg_res["err"]
     ctx.extra["spec_negative_controls"] = neg
+    import time
+    ctx.extra["python_cpu_s"] = round(time.process_time(), 1)     # load-independent cost of the binding legs
 
 
 def replay(ctx, case):
